@@ -21,9 +21,20 @@ use std::collections::HashMap;
 use std::collections::HashSet;
 use std::fmt::Debug;
 use std::hash::Hash;
+#[cfg(not(kolibrie_verif))]
 use std::sync::{Arc, Mutex};
+#[cfg(kolibrie_verif)]
+use std::sync::Arc;
+#[cfg(kolibrie_verif)]
+use kolibrie_verif_rt::sync::Mutex;
+#[cfg(not(kolibrie_verif))]
 use std::thread;
+#[cfg(kolibrie_verif)]
+use kolibrie_verif_rt::thread;
+#[cfg(not(kolibrie_verif))]
 use std::time::Instant;
+#[cfg(kolibrie_verif)]
+use kolibrie_verif_rt::time::Instant;
 #[cfg(test)]
 use std::{println as debug, println as error};
 
